@@ -507,6 +507,30 @@ pub fn run(ctx: &Ctx) {
             judge(&[elems], &[Layout::default()], &format!("{} referencing targets {:?} (document order {:?})", if c[3] == 0 { "frame with PDU instances" } else { "PDU with signal instances" }, q, order), loc);
         }));
     }
+    // G6c: BYTE-LENGTH is not part of the model: whatever it says, the PDU keeps its signals and the
+    // frame its PDUs
+    {
+        let lens: Vec<usize> = vec![0, 1, 2, 4, 255, 256, 65_535, 65_536, 4_294_967_295];
+        let nl = lens.len();
+        let sp = Space::new(&[nl, nl, 3, 2]);
+        let s2 = sp.clone();
+        let lens = &lens;
+        ctx.run_family(Family::new("c11.byte_lengths", sp.size(), format!("PDU BYTE-LENGTH x FRAME BYTE-LENGTH over {:?} (all pairs) x the PDU has 0 / 1 / 2 signal instances and a DESC x indentation: byte lengths do not change the model", lens), move |i, loc| {
+            let c = s2.coords(i);
+            let sigs: &[(&str, usize)] = match c[2] {
+                0 => &[],
+                1 => &[("S_STRG_UTF8", 0)],
+                _ => &[("S_UINT32", 1), ("S_RAWD", 0)],
+            };
+            let mut p = pdu("P1", Desc::Text("static text or variable-length argument".into()), sigs);
+            p.byte_length = lens[c[0]];
+            let mut p2 = pdu("P2", Desc::Absent, &[("S_BOOL", 0)]);
+            p2.byte_length = lens[c[1]];
+            let mut f = frame("ID_1", "f", &[("P1", 0), ("P2", 1)], Some(manuf(Some("APP1"), Some("CTX1"), None, None)));
+            f.byte_length = lens[c[1]];
+            judge(&[vec![Elem::Pdu(p), Elem::Pdu(p2), Elem::Frame(f)]], &[Layout { indent: c[3] == 0, ..Layout::default() }], &format!("PDU BYTE-LENGTH {}, FRAME BYTE-LENGTH {}, {} signal instances", lens[c[0]], lens[c[1]], c[2]), loc);
+        }));
+    }
     // G7: text content at its edges: leading / trailing / inner / only white space, entities and
     // multi-byte characters at the edges, in every text-bearing field of the model
     {
